@@ -94,7 +94,8 @@ static int runAlloc(const char *opsfile)
 //   top[top] clk[clk] rst[reset] pi0 pi1 po0 po1 sg0..sg7 rg0 ent0 inst0[-] ar0 blk0 ent1 mem0
 //   clk2[-]   second clock (registers of ent1 run on it) ; "-" = not present
 //   ipc=<name>,<name>,...   interface package natural constants (only when given)
-//   shape=<full|mem|tiny>   full: everything; mem: clock+memory only; tiny: two pins
+//   shape=<full|mem|tiny|late>   full: everything; mem: clock+memory only; tiny: two pins;
+//                           late: forward-declared signals read before assigned (lv=0..9, nm=0|1)
 // Output: "D <id> ok <nfiles>" | "D <id> exception <what>"
 // ---------------------------------------------------------------------------------------------
 struct Case {
@@ -165,6 +166,122 @@ static void buildMem(const Case &c)
 	pinOut(reg(rd, 0)).setName(c.get("po0", "po0"));
 }
 
+
+// "late" family: forward-declared signals that are READ (as IF/ELSIF condition, mux selector, data)
+// before they are ASSIGNED, so that consumers have lower node ids than producers and the exporter's
+// readiness-ordered statement emission (Process.cpp writeVHDL) is what puts the statements into a
+// legal order.  lv selects the variant; nm=1 additionally names the late objects (named signals).
+static void buildLate(const Case &c)
+{
+	int lv = atoi(c.get("lv", "0").c_str());
+	bool nm = c.get("nm", "0") == "1";
+	Clock clock({.absoluteFrequency = 100'000'000, .name = c.get("clk", "clk"), .resetName = c.get("rst", "reset")});
+	ClockScope cs(clock);
+	Bit x = pinIn().setName(c.get("pi0", "x"));
+	Bit y = pinIn().setName(c.get("pi1", "y"));
+	Bit z = pinIn().setName(c.get("pi2", "z"));
+	UInt a = pinIn(4_b).setName(c.get("pi3", "a"));
+	UInt b = pinIn(4_b).setName(c.get("pi4", "b"));
+	UInt d = pinIn(4_b).setName(c.get("pi5", "d"));
+	UInt res = a;
+	auto nameIt = [&](auto &sig, const char *role) { if (nm) sig.setName(c.get(role, role)); };
+
+	switch (lv) {
+	case 0: { // late IF condition (demo lateCondition)
+		Bit sel;
+		IF (sel) res = b;
+		Bit t = x; IF (y) t = z;
+		nameIt(t, "sg1");
+		sel = t;
+	} break;
+	case 1: { // late data
+		UInt late = 4_b;
+		IF (y) res = late + 1;
+		UInt t = b; IF (!y) t = d;
+		nameIt(t, "sg1");
+		late = t;
+	} break;
+	case 2: { // late mux selector
+		UInt sel = 2_b;
+		res = mux(sel, {a, b, d, a ^ b});
+		UInt t = cat(x, y); IF (z) t = cat(y, x);
+		nameIt(t, "sg1");
+		sel = t;
+	} break;
+	case 3: { // late conditions in an ELSE-IF chain
+		Bit s1, s2;
+		IF (s1) res = b;
+		ELSE { IF (s2) res = d; ELSE res = a + 1; }
+		Bit t1 = x; IF (y) t1 = z;
+		Bit t2 = y; IF (z) t2 = x;
+		nameIt(t1, "sg1"); nameIt(t2, "sg2");
+		s1 = t1; s2 = t2;
+	} break;
+	case 4: { // late condition nested inside another IF, both late
+		Bit s1, s2;
+		IF (s1) { res = b; IF (s2) res = d; }
+		Bit t2 = y; IF (x) t2 = z;
+		Bit t1 = x; IF (t2) t1 = y;       // t1 depends on t2
+		nameIt(t1, "sg1"); nameIt(t2, "sg2");
+		s1 = t1; s2 = t2;
+	} break;
+	case 5: { // consumer and producer in different sub-areas (processes) of one entity
+		Bit sel;
+		{
+			GroupScope g(GroupScope::GroupType::AREA, c.get("ar0", "consumer"));
+			IF (sel) res = b;
+		}
+		{
+			GroupScope g(GroupScope::GroupType::AREA, c.get("ar1", "producer"));
+			Bit t = x; IF (y) t = z;
+			nameIt(t, "sg1");
+			sel = t;
+		}
+	} break;
+	case 6: { // everything inside a sub-entity
+		Area e(c.get("ent0", "ent0"), true);
+		Bit sel;
+		UInt r2 = a;
+		IF (sel) r2 = b;
+		Bit t = x; IF (y) t = z;
+		nameIt(t, "sg1");
+		sel = t;
+		res = r2;
+	} break;
+	case 7: { // chain of late conditions: sel1 <- f(sel2), both used before being assigned
+		Bit sel1, sel2;
+		UInt r1 = a; IF (sel1) r1 = b;
+		UInt r2 = d; IF (sel2) r2 = r1;
+		Bit t2 = z; IF (x) t2 = y;
+		sel2 = t2;
+		Bit t1 = y; IF (sel2) t1 = x;
+		sel1 = t1;
+		nameIt(t1, "sg1"); nameIt(t2, "sg2");
+		res = r2;
+	} break;
+	case 8: { // late condition used by a register enable and as data at once
+		Bit sel;
+		UInt r = a;
+		IF (sel) r = reg(b, 0);
+		UInt q = r; IF (sel & x) q = d;
+		Bit t = z; IF (y) t = x;
+		nameIt(t, "sg1");
+		sel = t;
+		res = q;
+	} break;
+	default: { // late Bit used as condition AND as data (cat), plus a late vector used in a compare condition
+		Bit sel; UInt late = 4_b;
+		IF (sel) res = b;
+		IF (late == 3) res = zext(cat(sel, x), 4_b);
+		Bit t = x; IF (y) t = z;
+		UInt u = b; IF (z) u = d;
+		nameIt(t, "sg1"); nameIt(u, "sg2");
+		sel = t; late = u;
+	} break;
+	}
+	pinOut(res).setName(c.get("po0", "res"));
+}
+
 static void buildTiny(const Case &c)
 {
 	UInt a = pinIn(4_b).setName(c.get("pi0", "pi0"));
@@ -200,6 +317,7 @@ static int runDesign(const char *casefile, const char *outroot)
 			std::string shape = c.get("shape", "full");
 			if (shape == "full") buildFull(c);
 			else if (shape == "mem") buildMem(c);
+			else if (shape == "late") buildLate(c);
 			else buildTiny(c);
 			design.postprocess();
 
